@@ -234,13 +234,29 @@ fn gen_token_msg(rng: &mut Rng, token: usize) -> Item {
                 // (a constructed value may even carry an empty id, or one longer than the 32 bytes the
                 // wire allows: presence is what the property names)
                 let n = match rng.below(10) {
-                    0 => 0,
-                    1 => *rng.pick(&[33usize, 48, 64, 255, 300]),
+                    0 => *rng.pick(&[33usize, 48, 64, 255, 300]),
                     _ => rng.urange(1, 32),
                 };
                 m.set("sid", crate::item::Val::Bytes(rng.bytes(n)));
             }
             m
+        }
+        "server_hello" => {
+            // a constructed ServerHello can carry any version (the wire parser only accepts 0x0300..0x0303)
+            let mut m = gen::handshake(rng, "server_hello", 120);
+            if rng.chance(1, 2) {
+                m.set("ver", crate::item::Val::Int(gen::version(rng) as u64));
+            }
+            m
+        }
+        "client_key_exchange" => {
+            // all three ClientKeyExchange variants are the same message kind
+            let m = gen::handshake(rng, "client_key_exchange", 120);
+            match rng.below(4) {
+                0 => Item::new("client_key_exchange_dh").bytes("body", m.b("body")),
+                1 => Item::new("client_key_exchange_ecdh").bytes("body", &m.b("body")[..m.b("body").len().min(200)]),
+                _ => m,
+            }
         }
         "ccs" => Item::new("ccs"),
         "alert(warning)" => Item::new("alert").int("level", 1).int("desc", rng.u8() as u64),
@@ -497,7 +513,9 @@ fn do_step(ctx: &mut Ctx, edges: &[(usize, Dir, usize, usize)], st: &mut Track, 
     match (&got, want) {
         (Ok(s2), Some(m2)) => {
             // named-state clauses of the statement
-            let named = ["Invalid", "SessionEncrypted", "Finished"];
+            // (the statement names Finished as the target of fatal alerts and Invalid as the target of
+            // everything in Finished; it calls SessionEncrypted absorbing but does not say which step enters it)
+            let named = ["Invalid", "Finished"];
             let mname = STATES[m2];
             let t = TOKENS[token];
             let must_stay = matches!(STATES[model_before], "Invalid" | "SessionEncrypted") || ((t == "alert(warning)" || t == "hello_request") && STATES[model_before] != "Finished");
